@@ -204,6 +204,18 @@ def run_trading(rnd, S, cfgk, intensity=1.0, script=None, analyser=False, ids=No
                         lim = bar[8] if sell else bar[7]
                         call.update(api="combo_auction_two_fill", args=(oid, -q if sell else q, lim))
                         res = api.order_shares(oid, -q if sell else q, price_or_style=LimitOrder(lim))
+                elif phase == "AUC" and stocks and "STOCK" in before and srnd.random() < 0.08:
+                    # directed: an order placed in the auction that cannot fill there, cancelled at once (or twice)
+                    oid = srnd.choice(stocks)
+                    price = env.get_last_price(oid)
+                    if price == price and price > 0:
+                        call.update(api="combo_auction_cancel", args=(oid,))
+                        o = api.order_shares(oid, 100, price_or_style=LimitOrder(round(price * 0.97, 2)))
+                        res = [o] if o is not None else []
+                        if o is not None:
+                            api.cancel_order(o)
+                            if srnd.random() < 0.3:
+                                api.cancel_order(o)
                 elif phase == "BAR" and stocks and "STOCK" in before and srnd.random() < 0.25 and near_limit_today(env):
                     # directed: trade on the adverse side when today's close is a tick or two inside the band (slippage must stay inside)
                     oid, side = srnd.choice(near_limit_today(env))
